@@ -1,19 +1,465 @@
-//! C05 (stub, to be filled in)
+//! C05 - units run in order; the first error aborts the message and is reported once.
+//! Fault enumeration: for each sampled well-formed message, every failure position x failure
+//! kind is injected; the handler log and the error-hook log are the recorded history.
+
+use crate::exec::{SendObs, World};
+use crate::gen::*;
+use crate::model::*;
+use crate::msg::*;
+use crate::props::structural::*;
 use crate::props::*;
+use crate::rng::{mix, Rng};
 use crate::runner::{Finding, Prop, Tier};
 use crate::stats::Stats;
+use crate::tree::gen_tree;
 use crate::types::*;
 
 pub struct C05;
 
-impl Prop for C05 {
-    fn id(&self) -> &'static str { "C05" }
-    fn level(&self) -> &'static str { "exploration" }
-    fn rule(&self) -> &'static str { "" }
-    fn assumptions(&self) -> Vec<String> { vec![] }
-    fn runs(&self, _tier: Tier) -> u64 { 0 }
-    fn gen(&self, seed: u64, run: u64, _tier: Tier) -> Trace {
-        base_trace("C05", seed, run, "", Config { queue: QueueCfg::Vec, controllers: 1, tree: TreeDesc::default() })
+fn base_message(rng: &mut Rng, tc: &TreeCtx, uniq: &mut u32, mandated: bool) -> Msg {
+    let k = *rng.pick(&[1usize, 2, 3, 4, 6, 8]);
+    let k = rng.urange(1, k);
+    let mut units = Vec::new();
+    let mut level: Vec<usize> = Vec::new();
+    for i in 0..k {
+        let u = if mandated && rng.chance(1, 6) {
+            let c = *rng.pick(&[Contrib::Idn, Contrib::Opc, Contrib::SystVersion, Contrib::Wai]);
+            let query = c != Contrib::Wai;
+            contrib_unit(rng, tc, c, query, vec![], &level, i == 0)
+        } else {
+            let leaf = pick_sim_leaf(rng, tc).unwrap().clone();
+            let o = UnitOpts {
+                max_params: 4,
+                allow_indef_last: false,
+                query_pct: 50,
+                max_data: 3,
+                fancy_ws: rng.chance(1, 2),
+            };
+            gen_app_unit(rng, tc, &leaf, &level, i == 0, uniq, &o)
+        };
+        if let Some(l) = level_after(tc, &level, i == 0, u.colon, &u.path) {
+            level = l;
+        }
+        units.push(u);
     }
-    fn check(&self, _trace: &Trace, _stats: &mut Stats) -> Vec<Finding> { vec![] }
+    Msg {
+        units,
+        end: B::from(*rng.pick(&["", "", "\n", ";"])),
+    }
+}
+
+/// is unit `i` served by a SimHandler (its plan can be edited)?
+fn is_app(tc: &TreeCtx, msg: &Msg, i: usize) -> bool {
+    use crate::tree::{resolve, Resolved, H};
+    let mut level: Vec<usize> = Vec::new();
+    for (k, u) in msg.units.iter().enumerate() {
+        match resolve(&tc.root, &level, k == 0, u.colon, &u.path) {
+            Resolved::Leaf { h, level: l } => {
+                level = l;
+                if k == i {
+                    return matches!(h, H::Sim(_));
+                }
+            }
+            Resolved::Undefined => return false,
+        }
+    }
+    false
+}
+
+fn send(msg: Msg, fmt: FmtCfg) -> Step {
+    Step::Send(SendStep {
+        ctl: 0,
+        fmt,
+        msg,
+        corrupt: vec![],
+    })
+}
+
+impl Prop for C05 {
+    fn id(&self) -> &'static str {
+        "C05"
+    }
+    fn level(&self) -> &'static str {
+        "fault_enumeration"
+    }
+    fn rule(&self) -> &'static str {
+        "one run = one sampled well-formed message of k <= 8 units (events and queries, 0-4 parameters, 1-3 data, optionally real mandated queries) executed fault-free and then once per injected failure: for EVERY unit position i, handler error at every phase (before pulls, after each pull, after pulls, after each datum) with codes of all classes, under- and over-consumption, one syntax fault in the header and one in the parameters, an undefined header; EVERY response capacity 0..len of the real ArrayVec formatter; EVERY formatter write-call index (transient and persistent, hook-based); plus double faults (a later unit that would also fail). distinct_nontrivial = distinct (k, failing position, fault kind, phase/capacity class) tuples"
+    }
+    fn assumptions(&self) -> Vec<String> {
+        vec![
+            "handlers propagate the first error they meet (pull error, latched formatter error from finish())".into(),
+            "formatter write-call faults use the verif-hooks ResponseUnit constructor (no user can implement Formatter today)".into(),
+            "for syntax faults inside the parameter part the failing unit's own handler may or may not have been entered (the statement only forbids handlers of later units)".into(),
+        ]
+    }
+    fn runs(&self, tier: Tier) -> u64 {
+        match tier {
+            Tier::Quick => 6_000,
+            Tier::Thorough => 200_000,
+            Tier::Tiny => 20,
+        }
+    }
+    fn required_probes(&self) -> Vec<String> {
+        let v: Vec<&str> = vec![
+            "failure_in_first_unit",
+            "failure_in_middle_unit",
+            "failure_in_last_unit",
+            "transient_formatter_fault_inside_multi_datum_unit",
+            "formatter_fault_in_message_end",
+            "formatter_fault_in_unit_separator",
+            "double_fault_first_wins",
+            "capacity_fault_in_terminator",
+            "formatter_fault_in_message_start",
+        ];
+        v.into_iter().map(String::from).collect()
+    }
+
+    fn gen(&self, seed: u64, run: u64, _tier: Tier) -> Trace {
+        let mut rng = Rng::new(mix(seed, "C05", run));
+        let mut trng = Rng::new(mix(seed, "C05-tree", run / 32));
+        let mandated = trng.chance(1, 3);
+        let tree = gen_tree(&mut trng, mandated, 3, 3, 1);
+        let cfg = Config {
+            queue: QueueCfg::Vec,
+            controllers: 1,
+            tree,
+        };
+        let mut t = base_trace("C05", seed, run, "enumeration", cfg.clone());
+        let tc = TreeCtx::new(&cfg.tree);
+        if tc.sim_leaves.is_empty() {
+            return t;
+        }
+        let mut uniq = 0u32;
+        let base = base_message(&mut rng, &tc, &mut uniq, mandated);
+        let k = base.units.len();
+        t.steps.push(send(base.clone(), FmtCfg::Vec));
+        // ---- per position faults
+        for i in 0..k {
+            let app = is_app(&tc, &base, i);
+            let last = i + 1 == k;
+            if app {
+                let u = &base.units[i];
+                let mut phases = vec![Phase::Before, Phase::AfterPulls];
+                for j in 0..u.plan.pulls.len() {
+                    phases.push(Phase::AfterPull(j));
+                }
+                if u.query {
+                    for d in 0..u.plan.data.len() {
+                        phases.push(Phase::AfterDatum(d));
+                    }
+                }
+                for ph in phases {
+                    let mut m = base.clone();
+                    m.units[i].plan.fail = Some(PlanFail {
+                        err: gen_err_spec(&mut rng),
+                        phase: ph,
+                    });
+                    t.steps.push(send(m, FmtCfg::Vec));
+                }
+                // F2 under / over
+                if !u.params.is_empty() {
+                    let mut m = base.clone();
+                    let keep = rng.usize_below(u.params.len());
+                    m.units[i].plan.pulls.truncate(keep);
+                    t.steps.push(send(m, FmtCfg::Vec));
+                }
+                {
+                    let mut m = base.clone();
+                    m.units[i].plan.pulls.push(Pull {
+                        req: true,
+                        ty: PullTy::Tok,
+                    });
+                    t.steps.push(send(m, FmtCfg::Vec));
+                }
+                // F3 in parameters
+                for _ in 0..2 {
+                    let kind = *rng.pick(PARAM_FAULTS);
+                    let mut m = base.clone();
+                    let mut uu = m.units[i].clone();
+                    if apply_param_fault(&mut rng, &mut uu, kind, last, &mut uniq) {
+                        m.units[i] = uu;
+                        if last {
+                            m.end = B::new();
+                        }
+                        t.steps.push(send(m, FmtCfg::Vec));
+                        break;
+                    }
+                }
+            }
+            // F3 in header
+            for _ in 0..3 {
+                let kind = *rng.pick(HEADER_FAULTS);
+                let mut m = base.clone();
+                let mut uu = m.units[i].clone();
+                if apply_header_fault(&mut rng, &mut uu, kind) {
+                    m.units[i] = uu;
+                    t.steps.push(send(m, FmtCfg::Vec));
+                    break;
+                }
+            }
+            // F4: undefined header (absolute, so that later units are unaffected by construction)
+            if let Some((colon, path, _)) = gen_undefined_header(&mut rng, &tc, &[], i == 0) {
+                let mut m = base.clone();
+                m.units[i].colon = (colon || i > 0) && !path[0].starts_with('*');
+                m.units[i].path = path;
+                t.steps.push(send(m, FmtCfg::Vec));
+            }
+            // double fault: unit i fails by handler error, a later app unit would fail too
+            if app && i + 1 < k {
+                let later: Vec<usize> = ((i + 1)..k).filter(|x| is_app(&tc, &base, *x)).collect();
+                if !later.is_empty() {
+                    let j = *rng.pick(&later);
+                    let mut m = base.clone();
+                    m.units[i].plan.fail = Some(PlanFail {
+                        err: gen_err_spec(&mut rng),
+                        phase: Phase::AfterPulls,
+                    });
+                    m.units[j].plan.fail = Some(PlanFail {
+                        err: gen_err_spec(&mut rng),
+                        phase: Phase::Before,
+                    });
+                    t.steps.push(send(m, FmtCfg::Vec));
+                }
+            }
+        }
+        // ---- F5: every capacity (length from the framing model; data texts are stand-alone formatted)
+        let est_len: usize = {
+            let st = crate::props::c15::fresh_shadow(&cfg);
+            let p = predict(
+                &tc.root,
+                &st,
+                &SendStep {
+                    ctl: 0,
+                    fmt: FmtCfg::Vec,
+                    msg: base.clone(),
+                    corrupt: vec![],
+                },
+                Reading::Condition,
+            );
+            p.out.map(|o| o.len()).unwrap_or(0)
+        };
+        if est_len > 0 && est_len <= 190 {
+            for cap in 0..=est_len + 1 {
+                t.steps.push(send(base.clone(), FmtCfg::Array { cap }));
+            }
+        }
+        // ---- F6: every formatter write-call index
+        let mut est_calls = 2usize;
+        for u in &base.units {
+            if u.query {
+                est_calls += 3 + 2 * u.plan.hdr.len() + 5 * u.plan.data.len().max(4);
+            }
+        }
+        for at in 0..est_calls.min(90) {
+            for persistent in [false, true] {
+                t.steps.push(send(
+                    base.clone(),
+                    FmtCfg::Faulty {
+                        at,
+                        err: gen_err_spec(&mut rng),
+                        persistent,
+                    },
+                ));
+            }
+        }
+        t
+    }
+
+    fn check(&self, trace: &Trace, stats: &mut Stats) -> Vec<Finding> {
+        struct H;
+        impl StepHandler for H {
+            fn on_send(&mut self, world: &mut World, before: &ModelState, i: usize, s: &SendStep, o: &SendObs, stats: &mut Stats, out: &mut Vec<Finding>) {
+                let n0 = out.len();
+                hook_discipline(o, i, out);
+                if out.len() > n0 {
+                    for f in out[n0..].iter_mut() {
+                        f.detail = format!("{} [formatter {:?}]", f.detail, s.fmt);
+                    }
+                    return;
+                }
+                let pred = predict(&world.root, before, s, Reading::Condition);
+                if !pred.structural {
+                    return;
+                }
+                let k = s.msg.units.len();
+                let mut kind: &str = "none";
+                let mut pos: Option<usize> = pred.fail_unit;
+                let mut sub: u8 = 0;
+                for (ui, u) in s.msg.units.iter().enumerate() {
+                    if let Some(f) = &u.plan.fail {
+                        if pred.fail_unit == Some(ui) {
+                            kind = "F1_handler_error";
+                            sub = match f.phase {
+                                Phase::Before => 0,
+                                Phase::AfterPull(_) => 1,
+                                Phase::AfterPulls => 2,
+                                Phase::AfterDatum(_) => 3,
+                            };
+                        }
+                    }
+                    if u.hfault.is_some() && pred.fail_unit == Some(ui) {
+                        kind = "F3_syntax_fault_header";
+                    }
+                    if u.pfault.is_some() && pred.fail_unit == Some(ui) {
+                        kind = "F3_syntax_fault_parameters";
+                    }
+                }
+                if kind == "none" {
+                    match &pred.result {
+                        Err(ExpErr::Code(-113)) => kind = "F4_undefined_header",
+                        Err(ExpErr::Code(-108)) | Err(ExpErr::Code(-109)) => kind = "F2_arity",
+                        Err(ExpErr::Code(-225)) => {
+                            kind = "F5_capacity";
+                            if pred.fail_unit.is_none() {
+                                stats.probe("capacity_fault_in_terminator");
+                            }
+                        }
+                        _ => {}
+                    }
+                }
+                if s.msg.units.iter().filter(|u| u.plan.fail.is_some()).count() >= 2 {
+                    stats.probe("double_fault_first_wins");
+                }
+                // F6: hook-based formatter faults
+                if let FmtCfg::Faulty { err, persistent, .. } = &s.fmt {
+                    match &o.fire {
+                        None => {
+                            // fault index beyond the calls made: behaves like the fault-free run
+                        }
+                        Some(fire) => {
+                            stats.fault("F6_formatter_call_fails");
+                            match fire.call {
+                                "message_end" => stats.probe("formatter_fault_in_message_end"),
+                                "message_start" => stats.probe("formatter_fault_in_message_start"),
+                                "response_unit" => stats.probe("formatter_fault_in_unit_separator"),
+                                _ => {}
+                            }
+                            if !*persistent {
+                                // inside a unit with several data?
+                                if let Some(c) = o.calls.last() {
+                                    if c.query && c.data_written >= 2 && fire.call.starts_with("push") {
+                                        stats.probe("transient_formatter_fault_inside_multi_datum_unit");
+                                    }
+                                }
+                            }
+                            stats.state(&[k as u8, 0xF6, fire.sim_calls_at_fire as u8, *persistent as u8, fire.call.len() as u8]);
+                            let injected = spec_obs(err);
+                            let msgd = describe_msg(s);
+                            match &o.result {
+                                Ok(()) => out.push(Finding::new(
+                                    "C05.formatter_failure_aborts",
+                                    if *persistent { "persistent_formatter_failure_swallowed" } else { "transient_formatter_failure_swallowed" },
+                                    i,
+                                    format!("message {}: formatter call #{} ({}) failed with {:?} but run returned Ok", msgd, fire_index(&s.fmt), fire.call, injected),
+                                )),
+                                Err(e) if *e != injected => out.push(Finding::new(
+                                    "C05.returns_first_error",
+                                    "formatter_error_replaced",
+                                    i,
+                                    format!("message {}: formatter call ({}) failed with {:?} but run returned {:?}", msgd, fire.call, injected, e),
+                                )),
+                                Err(_) => {}
+                            }
+                            if o.calls.len() != fire.sim_calls_at_fire {
+                                out.push(Finding::new(
+                                    "C05.abort",
+                                    "handler_ran_after_formatter_failure",
+                                    i,
+                                    format!(
+                                        "message {}: {} handlers had been entered when the formatter failed in {}, {} were entered in total",
+                                        msgd,
+                                        fire.sim_calls_at_fire,
+                                        fire.call,
+                                        o.calls.len()
+                                    ),
+                                ));
+                            }
+                            // prefix in order, each at most once
+                            for (x, c) in o.calls.iter().enumerate() {
+                                match pred.calls.get(x) {
+                                    Some(e) if e.h == c.h && e.query == c.query => {}
+                                    _ => {
+                                        out.push(Finding::new(
+                                            "C05.order",
+                                            "handlers_not_a_prefix_in_order",
+                                            i,
+                                            format!("message {}: invoked {} expected a prefix of {}", msgd, fmt_calls(&o.calls), fmt_exp_calls(&pred.calls)),
+                                        ));
+                                        break;
+                                    }
+                                }
+                            }
+                            return;
+                        }
+                    }
+                }
+                if let Some(p) = pos.take() {
+                    stats.fault(kind);
+                    if p == 0 {
+                        stats.probe("failure_in_first_unit");
+                    }
+                    if p + 1 == k {
+                        stats.probe("failure_in_last_unit");
+                    }
+                    if p > 0 && p + 1 < k {
+                        stats.probe("failure_in_middle_unit");
+                    }
+                    let cap_class = match &s.fmt {
+                        FmtCfg::Array { cap } => (*cap).min(40) as u8,
+                        _ => 0xff,
+                    };
+                    stats.state(&[k as u8, p as u8, kind.len() as u8, kind.as_bytes()[1], sub, cap_class]);
+                } else if pred.result.is_err() {
+                    stats.fault(kind);
+                    stats.state(&[k as u8, 0xfe, kind.len() as u8]);
+                } else {
+                    stats.state(&[k as u8, 0xfd]);
+                }
+                let msgd = describe_msg(s);
+                if let Some(df) = cmp_dispatch(&pred, o) {
+                    let inv = match df.sig.as_str() {
+                        "handler_ran_after_failing_unit" => "C05.abort",
+                        _ => "C05.order",
+                    };
+                    out.push(Finding::new(inv, df.sig, i, format!("message {} [{:?}]: {}", msgd, s.fmt, df.detail)));
+                    return;
+                }
+                // each handler at most once: implied by the sequence comparison above.
+                if let Some(df) = cmp_result(&pred, o) {
+                    let inv = match (&pred.result, &o.result) {
+                        (Err(_), Ok(())) => "C05.failure_returned",
+                        (Ok(()), Err(_)) => "C05.spurious_failure",
+                        _ => "C05.returns_first_error",
+                    };
+                    out.push(Finding::new(inv, df.sig, i, format!("message {} [{:?}]: {}", msgd, s.fmt, df.detail)));
+                }
+            }
+        }
+        let f = drive(trace, stats, &mut H);
+        if trace.run < 2 && stats.samples.is_empty() {
+            let first = trace.steps.iter().find_map(|s| match s {
+                Step::Send(x) => Some(describe_msg(x)),
+                _ => None,
+            });
+            let variants: Vec<String> = trace
+                .steps
+                .iter()
+                .skip(1)
+                .take(8)
+                .filter_map(|s| match s {
+                    Step::Send(x) => Some(format!("{:?} {}", x.fmt, describe_msg(x))),
+                    _ => None,
+                })
+                .collect();
+            stats.samples.push(serde_json::to_string(&serde_json::json!({"base": first, "fault_variants_total": trace.steps.len() - 1, "first_variants": variants})).unwrap());
+        }
+        f
+    }
+}
+
+fn fire_index(f: &FmtCfg) -> usize {
+    match f {
+        FmtCfg::Faulty { at, .. } => *at,
+        _ => 0,
+    }
 }
